@@ -24,6 +24,10 @@ ENGINES = [
                        "the live tree in the gaps; virtual wall clock"},
 ]
 
+_RFGEN = (" Generator reach beyond the obvious: start samples up to 2^64-2^40, rates from mHz to multi-GHz, recorder "
+          "processes with seeded non-UTC TZ, channel paths containing 'tmp.', a prelude writer of other type/byte order "
+          "in the same process.")
+
 _RFNOTE = ("decided by seeded sampling of configuration x boundary index x history against an exact big-integer "
            "model; the simulator contributes session restarts, reader-object histories, readdir order and process "
            "isolation, not faults. HDF5 1.10.8 build of the tree; model and keyed-hash value streams are trusted.")
@@ -45,7 +49,7 @@ CHECKS = {
         "text": "After every simulated recording each data file is opened raw: every index it describes must lie in the "
                 "window of its own name time (exact integers), in the right subdirectory, in exactly one file, and every "
                 "model sample must be in the file file_of(k) names.",
-        "note": _RFNOTE,
+        "note": _RFNOTE + _RFGEN,
     },
     "C05": {
         "engine": "rfsim", "level": "exploration", "design_ref": "DESIGN.md 5/C05",
@@ -63,7 +67,9 @@ CHECKS = {
         "text": "Structural index invariants, the 15 duplicated attributes, uuid / init timestamp / increasing sequence "
                 "number per session, equality with drf_properties.h5, and regeneration of a deleted properties file from "
                 "whatever file the shuffled glob picks, with identical read-back.",
-        "note": _RFNOTE + " init_utc_timestamp is checked to within 1 s (the statement says 'carry', not 'exact').",
+        "note": _RFNOTE + " init_utc_timestamp is checked to within 1 s (the statement says 'carry', not 'exact'). Every "
+                "fifth single-session run adds a restart tier (recorder SIGKILLed at a seeded boundary, new recorder started "
+                "inside the period in progress) judged on the per-file clauses only." + _RFGEN,
     },
     "C07": {
         "engine": "rfsim", "level": "exploration", "design_ref": "DESIGN.md 5/C07",
@@ -71,7 +77,7 @@ CHECKS = {
         "text": "Every existing file must expose exactly one block covering its whole window; never-written slots must "
                 "hold the documented fill (any NaN for floats, most negative for signed, 0 for unsigned, both components); "
                 "a file exists iff a slot was written; with compression/checksum the block structure must be gapped mode's.",
-        "note": _RFNOTE,
+        "note": _RFNOTE + _RFGEN,
     },
     "C08": {
         "engine": "rfsim", "level": "exploration", "design_ref": "DESIGN.md 5/C08",
@@ -79,7 +85,7 @@ CHECKS = {
         "text": "30 seeded queries per recording on edges of files, blocks and gaps: block lengths vs read, split/merge, "
                 "subchannel column, bounds, vector reads of length 1 / nsub / arbitrary (exact data or IOError, never "
                 "partial), per-sample properties.",
-        "note": _RFNOTE,
+        "note": _RFNOTE + _RFGEN,
     },
     "C11": {
         "engine": "rfsim", "level": "exploration", "design_ref": "DESIGN.md 5/C11",
@@ -189,7 +195,8 @@ CHECKS = {
         "note": "additional fault tiers: the publishing rename tmp.X -> X inside the destination fails once with EIO (20% of "
                 "the runs); the mirror process is SIGKILLed at a seeded boundary and a new mirror process replays the existing "
                 "files (real start()) and all events delivered so far (25%), with the invariants checked at every boundary of "
-                "the second process too. "
+                "the second process too; in 30% of the runs some destination names are pre-occupied by stale files of equal "
+                "size (or shorter), other content and older mtime, which must be replaced. "
                 "Complete over the mirror's op boundaries per history, sampled over histories; metadata files are mirrored "
                 "at call granularity of the metadata writer (never mid-append); events are derived from the model of the "
                 "recording, the watchdog observer is stubbed. One known finding (KF-C17-1) is recorded, not repaired.",
@@ -217,7 +224,9 @@ CHECKS = {
                 "trace), and visibility must only grow. Free-running racing processes are not run (would not replay); "
                 "the lock-step enumeration covers every state such a race can observe at system-call granularity.",
         "note": "same trusted base as C02; reader and writer are in different processes but the interleaving is "
-                "decided by the simulator at libc-call granularity (no finer than a system call).",
+                "decided by the simulator at libc-call granularity (no finer than a system call). Every fourth run "
+                "continues, under the same long-lived readers, with a second recorder process whose first write falls into "
+                "the last finalized period (must be refused, published file unchanged) and whose later writes open later periods.",
     },
     "C10": {
         "engine": "crashsim", "level": "fault_enumeration", "design_ref": "DESIGN.md 5/C10",
